@@ -38,10 +38,32 @@ M = {
      "C18 quick (C18.InstallsExactly, C18.Initialised, C18.UsableActive)", "missed by the first version's random behaviours; a directed regression behaviour was added (the generator can produce it: Upgrade with content 'wrongcons' on a client of the other type)"),
  "C19_sequence_key_signed": ("C19", "sequences of 2^63 and above", "C19 quick (C19.KeyParseBack, class n=2p63 / max)", "caught at first attempt"),
  "C20_amountof_unsorted_rewards": ("C20", "an unsorted reward list", "C20 quick (Release)", "caught at first attempt"),
+ # round 3 (sub-agents were told rounds 1 and 2 and asked for changes a checker of the obvious scenarios would still miss)
+ "C01_export_drops_tss_receipts": ("C01", "a receive through a TSS client, then an export/import of the genesis (the export filter drops receipts and acknowledgements of chains whose client has a zero height), then a replay", "C13 quick (C13.RoundTripLossless on the final states of the authorisation behaviours); C01 itself replays no genesis restart", "caught at first attempt by C13"),
+ "C02_tm_ack_height_rev0_rewritten": ("C02", "a genuine acknowledgement whose proof height is stated in revision 0", "C02 quick (C02.AuthAck)", "missed by the first version (proof-height alterations kept the revision); caught after the 'rev0' proof class, its generator categories and a directed behaviour were added"),
+ "C03_ack_callback_error_swallowed": ("C03", "an error acknowledgement of a transfer whose acknowledgement callback reverts (callback contract without the function)", "C03 quick (C03.Conservation)", "missed by the first version (no callback contracts); caught after packets with a bad callback contract were added (their acknowledgements are never accepted on the unchanged code)"),
+ "C04_hook_returns_after_first_send": ("C04", "one transaction sending to two destinations", "C04 quick (C04.SendTwoStep), three-chain leg", "missed by the first version (one send per transaction, two chains); caught after SendTwo and the three-chain replay leg were added"),
+ "C05_unknown_relayer_ack_half_processed": ("C05", "an acknowledgement naming a relayer address the source chain's registry no longer holds (re-registration between receive and acknowledgement)", "C05 quick (C05.AckAllOrNothing, C05.AckOnce, C05.FeesHeld)", "missed by the first version (static registry in the XIBC world); caught after the Rotate action was added"),
+ "C06_callback_failed_ack_names_signer": ("C06", "a packet whose call data is not decodable (the callback itself reverts) relayed by a relayer whose counterparty address differs from its account", "C06 quick (C06.AckRelayerField, authorisation world)", "caught (the 'malformed' call-data class was added just before, pre-emptively)"),
+ "C07_revision_check_against_latest": ("C07", "a governance upgrade to the next revision, then a header of the new revision trusting a consensus state of the old one", "C07 quick (C07.AcceptedIsSound)", "missed by the first version (one revision); caught after heights became (revision, number) keys and the Upgrade action was added"),
+ "C08_eth_ack_height_check_dropped": ("C08", "an ETH client reorganised to a lower head, a proof at a stored height above the head, acknowledgement path", "C08 quick (C08.AcceptedOnlyIfAllRight, height class 'abovestored')", "missed by the first version (no consensus state above the head); caught after the class was added"),
+ "C09_single_validator_never_switches": ("C09", "a validator set of one: the switch offset 0 falls on the epoch block itself", "C09 quick (C09.SetSwitchesAtOffset, epoch-2 single-validator leg)", "missed by the first version; caught after the third configuration and the judge were added"),
+ "C10_restrict_skips_identical_state": ("C10", "a fork whose first re-pointed header has the same timestamp and state root as the header kept at that height", "C10 quick (C10.NeverWedged)", "caught at first attempt (siblings with equal roots are in the universe)"),
+ "C11_update_reenables_pair": ("C11", "a disabled pair whose ERC-20 address governance then replaces", "C11 quick (C11.EnabledOnlyByToggle)", "missed by the first version (the gate judge read the registry's own flag); caught after the judge on the flag's history and a directed behaviour were added"),
+ "C12_addcoin_indexes_name": ("C12", "AddCoin with metadata whose name differs from the base denomination", "C12 quick (C12.Findable)", "missed by the random behaviours of the quick tier; directed behaviour added"),
+ "C13_tss_update_stores_typed_nil": ("C13", "a MsgUpdateClient for a TSS client, then an export", "C13 quick (C13.Validates) and C18 quick (C18.TssKeepsNothing)", "caught at first attempt"),
+ "C14_eth_future_check_wall_clock": ("C14", "an Ethereum header dated around the node's wall clock", "C14 quick (C14.SameResults: the two replicas judge the wall-clock probe header differently)", "caught (the wall-clock probe was added just before, pre-emptively)"),
+ "C15_equal_aliases_index_panic": ("C15", "a second RegisterCoin proposal for the same coin whose unit lists fewer aliases than the stored metadata", "C15 quick (C15.NoPanicInHandler, class 'againfeweraliases')", "missed by the first version; caught after the repeated-proposal classes were added"),
+ "C16_error_ack_for_misbehaving_token": ("C16", "a voucher of a pair whose external token takes a cut on transfer", "C16 quick (C16.AckPreserved, C16.SuccessAcked)", "caught (the misbehaving-token class was added just before, pre-emptively)"),
+ "C17_gov_hook_keeps_last_error": ("C17", "a contract voting twice in one transaction, the first vote failing natively", "C17 quick (C17.OncePerEvent)", "caught (the two-call path Tx2 was added just before, pre-emptively)"),
+ "C18_toggle_wipes_cons_prefix_only": ("C18", "Tendermint -> TSS -> Tendermint toggles with updates in between", "C18 quick (C18.NoPartialMetadata / C18.TssKeepsNothing)", "caught at first attempt"),
+ "C19_decode_lowercases_sender": ("C19", "a sender that is a 20-byte hex account with upper-case digits", "C19 quick (C19.DecodeEncode, string class 'hexaddr')", "missed by the first version; caught after the class was added"),
+ "C20_full_reward_on_raw_balance": ("C20", "a denomination listed twice with the pool between the later entry and the sum", "C20 quick (NeverHalts / Release)", "caught at first attempt"),
 }
 
 
 def main():
+    R3 = set(l.split()[0] for l in open(os.path.join(ROOT, "seeded", "round3.list")) if l.strip())
     for n, (p, needs, by, hist) in M.items():
         d = os.path.join(ROOT, "seeded", n)
         if not os.path.isdir(d):
@@ -52,7 +74,8 @@ def main():
         json.dump({"property": p, "needs_to_manifest": needs, "caught_by": [by], "history": hist,
                    "what_was_run": "bin/confirmseed in the scratch worktree (build ok, demonstration fails with / passes without the change, repository suite 414/414); "
                                    "bin/tryall (git -C /repo apply, quick check, git checkout): " + ts[:400],
-                   "origin": "independent sub-agent given only the property text, the list of already known changes and a scratch worktree (round 2)"},
+                   "origin": "independent sub-agent given only the property text, the list of already known changes and a scratch worktree (round %d)"
+                             % (3 if n in R3 else 2)},
                   open(os.path.join(d, "meta.json"), "w"), indent=1)
     print("ok")
 
